@@ -131,3 +131,73 @@ Theorem C06_sweep_example :
   fst (sweep c (fun r => req_eqb r (QIndex 2))) = [PutTrash 0 0; PutTrash 1 0].
 Proof. exact sweep_sends_lists. Qed.
 Print Assumptions C06_sweep_example.
+
+(* ---- (a) paging: progress, for all inputs (proofs/C06_progress.v) ----------------------------------- *)
+From AV Require Import proofs.C06_progress.
+
+(* The paging loop terminates: the model's out-of-fuel result is unreachable once the fuel is at least
+     fuel_bound evs db = |evs| + 3 * (|db| + number of Add/Insert events in evs) + 3
+   (one request per batch of the schedule, then three per row that is or may come to be in the table).
+   For every table with unique uuids and any multiplicity of equal timestamps, every page size >= 1, every
+   injected request / callback failure and every schedule of Modify/Add/Delete/Tick/Insert events.
+   res_of is the result component of each_collection's value. *)
+Theorem C06_paging_terminates : forall fuel n f evs db clock,
+  1 <= n -> NoDup (map uuid db) -> (forall r, In r db -> 1 <= mtime r <= clock) ->
+  fuel_bound evs db <= fuel ->
+  res_of (each_collection fuel n f evs db clock) <> RFuel.
+Proof. exact each_collection_terminates. Qed.
+Print Assumptions C06_paging_terminates.
+
+(* the fuel is irrelevant once it suffices: a result other than RFuel (with its callback sequence, world
+   and scanner state) is the result for every larger fuel *)
+Theorem C06_paging_fuel_irrelevant : forall fuel fuel' n f evs db clock,
+  res_of (each_collection fuel n f evs db clock) <> RFuel -> fuel <= fuel' ->
+  each_collection fuel' n f evs db clock = each_collection fuel n f evs db clock.
+Proof. exact each_collection_fuel_mono. Qed.
+Print Assumptions C06_paging_fuel_irrelevant.
+
+(* progress on a quiet table, for EVERY table and page size: nil is returned within
+   min (3*|table| + 3, 4*|table|/(limit+1) + 4) page requests and every row was visited *)
+Theorem C06_paging_progress : forall fuel n db clock,
+  1 <= n -> NoDup (map uuid db) -> (forall r, In r db -> 1 <= mtime r <= clock) ->
+  Nat.min (3 * List.length db + 3) (4 * List.length db / (n + 1) + 4) <= fuel ->
+  exists vis w s', each_collection fuel n nofaults [] db clock = (ROk, vis, w, s') /\
+                   forall r, In r db -> In (uuid r) vis.
+Proof. exact paging_progress_quiet. Qed.
+Print Assumptions C06_paging_progress.
+
+(* the same in the boolean form of the small-scope check (quiet_ok db limit is
+   quiet_ok_at (2*|db|/limit + 4) db limit 3), and for any fuel at all: it ran out, or nil + all rows *)
+Theorem C06_paging_progress_b :
+  (forall db limit, quiet_ok db limit = quiet_ok_at (2 * List.length db / limit + 4) db limit 3) /\
+  (forall fuel n db clock,
+     1 <= n -> NoDup (map uuid db) -> (forall r, In r db -> 1 <= mtime r <= clock) ->
+     Nat.min (3 * List.length db + 3) (4 * List.length db / (n + 1) + 4) <= fuel ->
+     quiet_ok_at fuel db n clock = true) /\
+  (forall fuel n db clock,
+     1 <= n -> NoDup (map uuid db) -> (forall r, In r db -> 1 <= mtime r <= clock) ->
+     res_of (each_collection fuel n nofaults [] db clock) = RFuel \/
+     exists vis w s', each_collection fuel n nofaults [] db clock = (ROk, vis, w, s') /\
+                      forall r, In r db -> In (uuid r) vis).
+Proof.
+  split; [exact quiet_ok_is_at|]. split; [exact quiet_ok_at_general|exact paging_quiet_any_fuel].
+Qed.
+Print Assumptions C06_paging_progress_b.
+
+(* the request count 2*|table|/limit + 4 assumed by C06_paging_progress_small_scope is NOT a bound outside
+   its scope: 7 rows with one timestamp, then 2 with another, page size 5, need 8 page requests *)
+Theorem C06_paging_small_scope_formula_not_general :
+  res_of (each_collection (2 * List.length ex_formula_db / 5 + 4) 5 nofaults [] ex_formula_db 2) = RFuel /\
+  quiet_ok ex_formula_db 5 = false /\
+  res_of (each_collection 8 5 nofaults [] ex_formula_db 2) = ROk.
+Proof. exact small_scope_formula_not_general. Qed.
+Print Assumptions C06_paging_small_scope_formula_not_general.
+
+(* the fuel has to depend on the schedule: with two collections that are modified again before every
+   request (chase = [Modify 1; Modify 2], table R2 1 = rows 1 and 2 at time 1) a scan given F page requests
+   and F+2 such batches is still running when the fuel ends, for every F and every page size.  The Go loop
+   behaves the same way: it follows "now" for as long as collections keep being modified. *)
+Theorem C06_paging_fuel_depends_on_schedule : forall F n,
+  1 <= n -> res_of (each_collection F n nofaults (repeat chase (F + 2)) (R2 1) 1) = RFuel.
+Proof. exact no_schedule_independent_fuel. Qed.
+Print Assumptions C06_paging_fuel_depends_on_schedule.
